@@ -38,6 +38,9 @@ def _pdu_abs(kind: str, p: Pdu) -> tuple:
         pf = dict(p.get("params_fields", ()))
         good = ename(pf.get("condition_code")) == "NO_ERROR" and ename(pf.get("delivery_code")) == "DATA_COMPLETE"
         return (("good", good),)
+    if kind in ("ACK_EOF", "ACK_FIN"):
+        ts = p.get("transaction_status")
+        return (("transaction_status", ename(ts) if isinstance(ts, E) else "?"),)
     return ()
 
 
@@ -87,6 +90,13 @@ class Compact:
                         req.append(("checksum_type", "NULL_CHECKSUM" if ename(v) == "NULL_CHECKSUM" else "$OTHER"))
                     elif attr in ("dest_file_name", "source_file_name"):
                         req.append(("metadata_only_part", v is None))
+            for k_, v_ in e.ch:
+                # a branch on the status field of an acknowledgement: handlers acknowledge with ACTIVE, the surrounding entity
+                # (transaction already closed) with an inactive status
+                if isinstance(k_, tuple) and k_ and k_[0] == "eq" and "pkt.transaction_status" in repr(k_):
+                    lit = next((str(t).split(".")[-1] for t in k_[1:] if "TransactionStatus." in str(t)), None)
+                    if lit is not None:
+                        req.append(("transaction_status", (lit, bool(v_))))
             outs = []
             for x in e.ev:
                 if x.kind == "pdu":
@@ -131,6 +141,16 @@ def _compatible(req: tuple, attrs: tuple) -> bool:
     for k, v in req:
         if k == "metadata_only_part":
             if "metadata_only" in have and have["metadata_only"] != v:
+                return False
+        elif k == "transaction_status":
+            hs = have.get("transaction_status", "?")
+            lit, truth = v
+            if hs == "?":
+                continue
+            if hs == "$INACTIVE":
+                if lit == "ACTIVE" and truth:
+                    return False  # an inactive status never equals ACTIVE; equality with another member is open
+            elif (hs == lit) != truth:
                 return False
         elif k in have and have[k] != "?" and have[k] != v:
             return False
@@ -195,7 +215,7 @@ class Product:
             if head is not None and s_idle and "SRC_DONE" in st.bits:
                 # closed transaction: the surrounding entity answers (ACK of Finished) as the library documents
                 if head[0] == "FINISHED":
-                    nsd = self._push(st.sd, (("ACK_FIN", ()),))
+                    nsd = self._push(st.sd, (("ACK_FIN", (("transaction_status", "$INACTIVE"),)),))
                     if nsd is not None:
                         res.append(("entity acks Finished for the closed transaction", PState(st.s, st.d, nsd, st.ds[1:], st.bits)))
                 else:
@@ -233,7 +253,7 @@ class Product:
                 continue
             if head is not None and d_idle and "DST_DONE" in st.bits:
                 if head[0] == "EOF":
-                    nds = self._push(st.ds, (("ACK_EOF", ()),))
+                    nds = self._push(st.ds, (("ACK_EOF", (("transaction_status", "$INACTIVE"),)),))
                     if nds is not None:
                         res.append(("entity acks EOF for the closed transaction", PState(st.s, st.d, st.sd[1:], nds, st.bits)))
                 else:
